@@ -89,9 +89,6 @@ pub broadcast proof fn ax_ibig_of(i: int) ensures #[trigger] ibig_of(i).v() == i
 #[verifier::external_body]
 pub broadcast proof fn ax_ubig_nonneg(u: UBig) ensures #[trigger] u.v() >= 0 {}
 
-pub open spec fn iabs(x: int) -> int { if x >= 0 { x } else { -x } }
-// truncating division (rounds toward zero), divisor > 0
-pub open spec fn tdiv(a: int, b: int) -> int { if a >= 0 { a / b } else { -((-a) / b) } }
 pub open spec fn cmp_int(a: int, b: int) -> Ordering {
     if a < b { Ordering::Less } else if a == b { Ordering::Equal } else { Ordering::Greater }
 }
@@ -117,7 +114,9 @@ impl PartialOrd for UBig { #[verifier::external_body] fn partial_cmp(&self, othe
 impl Ord for UBig { #[verifier::external_body] fn cmp(&self, other: &Self) -> Ordering { unimplemented!() } }
 
 impl UBig {
-    // TRUSTED (integer/src/ubig.rs): is_zero / is_one test the value
+    // TRUSTED (integer/src/ubig.rs): the constants, is_zero / is_one test the value
+    #[verifier::external_body] pub exec const ZERO: UBig ensures Self::ZERO.v() == 0 { UBig { _p: 0 } }
+    #[verifier::external_body] pub exec const ONE: UBig ensures Self::ONE.v() == 1 { UBig { _p: 0 } }
     #[verifier::external_body]
     pub fn is_zero(&self) -> (r: bool) ensures r == (self.v() == 0) { unimplemented!() }
     #[verifier::external_body]
@@ -129,17 +128,20 @@ impl UBig {
     { unimplemented!() }
 }
 impl IBig {
+    #[verifier::external_body] pub exec const ZERO: IBig ensures Self::ZERO.v() == 0 { IBig { _p: 0 } }
+    #[verifier::external_body] pub exec const ONE: IBig ensures Self::ONE.v() == 1 { IBig { _p: 0 } }
+    #[verifier::external_body] pub exec const NEG_ONE: IBig ensures Self::NEG_ONE.v() == -1 { IBig { _p: 0 } }
     #[verifier::external_body]
     pub fn is_zero(&self) -> (r: bool) ensures r == (self.v() == 0) { unimplemented!() }
     // TRUSTED (integer/src/sign.rs): zero is Positive
     #[verifier::external_body]
     pub fn sign(&self) -> (r: Sign) ensures r == (if self.v() < 0 { Sign::Negative } else { Sign::Positive }) { unimplemented!() }
     #[verifier::external_body]
-    pub fn unsigned_abs(self) -> (r: UBig) ensures r.v() == iabs(self.v()) { unimplemented!() }
+    pub fn unsigned_abs(self) -> (r: UBig) ensures r.v() == rabs(self.v()) { unimplemented!() }
     // TRUSTED (integer/src/bits.rs): trailing zeros of the magnitude
     #[verifier::external_body]
     pub fn trailing_zeros(&self) -> (r: Option<usize>)
-        ensures self.v() == 0 ==> r.is_none(), self.v() != 0 ==> r.is_some() && is_tz(iabs(self.v()), r.unwrap() as int)
+        ensures self.v() == 0 ==> r.is_none(), self.v() != 0 ==> r.is_some() && is_tz(rabs(self.v()), r.unwrap() as int)
     { unimplemented!() }
 }
 
@@ -149,7 +151,7 @@ pub trait AbsOrd<Rhs = Self> {
     fn abs_cmp(&self, rhs: &Rhs) -> (r: Ordering) ensures r == self.abs_cmp_spec(rhs);
 }
 impl AbsOrd for IBig {
-    open spec fn abs_cmp_spec(&self, rhs: &IBig) -> Ordering { cmp_int(iabs(self.v()), iabs(rhs.v())) }
+    open spec fn abs_cmp_spec(&self, rhs: &IBig) -> Ordering { cmp_int(rabs(self.v()), rabs(rhs.v())) }
     #[verifier::external_body]
     fn abs_cmp(&self, rhs: &IBig) -> (r: Ordering) { unimplemented!() }
 }
@@ -166,42 +168,42 @@ pub trait Gcd<Rhs = Self> {
 impl<'a, 'b> Gcd<&'b UBig> for &'a UBig {
     type Output = UBig;
     open spec fn gcd_req(self, rhs: &'b UBig) -> bool { self.v() != 0 || rhs.v() != 0 }
-    open spec fn gcd_post(self, rhs: &'b UBig, r: UBig) -> bool { is_gcd(r.v(), iabs(self.v()), iabs(rhs.v())) }
+    open spec fn gcd_post(self, rhs: &'b UBig, r: UBig) -> bool { is_gcd(r.v(), rabs(self.v()), rabs(rhs.v())) }
     #[verifier::external_body]
     fn gcd(self, rhs: &'b UBig) -> (r: UBig) { unimplemented!() }
 }
 impl<'a, 'b> Gcd<&'b UBig> for &'a IBig {
     type Output = UBig;
     open spec fn gcd_req(self, rhs: &'b UBig) -> bool { self.v() != 0 || rhs.v() != 0 }
-    open spec fn gcd_post(self, rhs: &'b UBig, r: UBig) -> bool { is_gcd(r.v(), iabs(self.v()), iabs(rhs.v())) }
+    open spec fn gcd_post(self, rhs: &'b UBig, r: UBig) -> bool { is_gcd(r.v(), rabs(self.v()), rabs(rhs.v())) }
     #[verifier::external_body]
     fn gcd(self, rhs: &'b UBig) -> (r: UBig) { unimplemented!() }
 }
 impl<'a, 'b> Gcd<&'b IBig> for &'a UBig {
     type Output = UBig;
     open spec fn gcd_req(self, rhs: &'b IBig) -> bool { self.v() != 0 || rhs.v() != 0 }
-    open spec fn gcd_post(self, rhs: &'b IBig, r: UBig) -> bool { is_gcd(r.v(), iabs(self.v()), iabs(rhs.v())) }
+    open spec fn gcd_post(self, rhs: &'b IBig, r: UBig) -> bool { is_gcd(r.v(), rabs(self.v()), rabs(rhs.v())) }
     #[verifier::external_body]
     fn gcd(self, rhs: &'b IBig) -> (r: UBig) { unimplemented!() }
 }
 impl<'b> Gcd<&'b IBig> for UBig {
     type Output = UBig;
     open spec fn gcd_req(self, rhs: &'b IBig) -> bool { self.v() != 0 || rhs.v() != 0 }
-    open spec fn gcd_post(self, rhs: &'b IBig, r: UBig) -> bool { is_gcd(r.v(), iabs(self.v()), iabs(rhs.v())) }
+    open spec fn gcd_post(self, rhs: &'b IBig, r: UBig) -> bool { is_gcd(r.v(), rabs(self.v()), rabs(rhs.v())) }
     #[verifier::external_body]
     fn gcd(self, rhs: &'b IBig) -> (r: UBig) { unimplemented!() }
 }
 impl<'b> Gcd<&'b UBig> for UBig {
     type Output = UBig;
     open spec fn gcd_req(self, rhs: &'b UBig) -> bool { self.v() != 0 || rhs.v() != 0 }
-    open spec fn gcd_post(self, rhs: &'b UBig, r: UBig) -> bool { is_gcd(r.v(), iabs(self.v()), iabs(rhs.v())) }
+    open spec fn gcd_post(self, rhs: &'b UBig, r: UBig) -> bool { is_gcd(r.v(), rabs(self.v()), rabs(rhs.v())) }
     #[verifier::external_body]
     fn gcd(self, rhs: &'b UBig) -> (r: UBig) { unimplemented!() }
 }
 impl<'a, 'b> Gcd<&'b IBig> for &'a IBig {
     type Output = UBig;
     open spec fn gcd_req(self, rhs: &'b IBig) -> bool { self.v() != 0 || rhs.v() != 0 }
-    open spec fn gcd_post(self, rhs: &'b IBig, r: UBig) -> bool { is_gcd(r.v(), iabs(self.v()), iabs(rhs.v())) }
+    open spec fn gcd_post(self, rhs: &'b IBig, r: UBig) -> bool { is_gcd(r.v(), rabs(self.v()), rabs(rhs.v())) }
     #[verifier::external_body]
     fn gcd(self, rhs: &'b IBig) -> (r: UBig) { unimplemented!() }
 }
